@@ -32,6 +32,7 @@ import (
 	"github.com/bufbuild/buf/private/pkg/storage/storagearchive"
 	"github.com/bufbuild/buf/private/pkg/storage/storagemem"
 	"github.com/bufbuild/buf/private/pkg/uuidutil"
+	"github.com/bufbuild/buf/private/pkg/verifhook"
 )
 
 var (
@@ -424,6 +425,7 @@ func (p *moduleDataStore) putModuleData(
 				return err
 			}
 		}
+		verifhook.Point("store.unlocked")
 		// Acquire exclusive lock on module lock file for writing module data to the cache.
 		unlocker, err := p.locker.Lock(ctx, moduleDataStoreDirLockPath)
 		if err != nil {
@@ -461,6 +463,7 @@ func (p *moduleDataStore) putModuleData(
 		}
 	}
 	// Proceed to writing module data.
+	verifhook.Point("store.writing")
 	depModuleKeys, err := moduleData.DepModuleKeys()
 	if err != nil {
 		return err
@@ -523,6 +526,7 @@ func (p *moduleDataStore) putModuleData(
 	if err != nil {
 		return err
 	}
+	verifhook.Point("store.files.copied")
 	// Put the module.yaml last, so that we only have a module.yaml if the cache is finished writing.
 	// We can use the existence of the module.yaml file to say whether or not the cache contains a
 	// given ModuleKey, otherwise we overwrite any contents in the cache.
